@@ -549,6 +549,17 @@ func c17DClass(p c17DProg, v c17Verdict) string {
 		lo, hi = hi, lo
 	}
 	x := p.Lines[v.Flagged].Var
+	// make reads a file as often as it is included, pkglint reads it once
+	count := map[[2]int]int{}
+	for _, l := range p.Lines {
+		count[[2]int{l.File, l.Lineno}]++
+	}
+	twice := false
+	for i := lo; i <= hi; i++ {
+		if l := p.Lines[i]; l.File != 0 && count[[2]int{l.File, l.Lineno}] > 1 {
+			twice = true
+		}
+	}
 	depth, inGuardLike := 0, false
 	for i, l := range p.Lines {
 		switch l.Kind {
@@ -581,8 +592,8 @@ func c17DClass(p c17DProg, v c17Verdict) string {
 			}
 		}
 	}
-	if v.Flagged == v.Because || (p.Files[p.Lines[lo].File] == p.Files[p.Lines[hi].File] && p.Lines[lo].Lineno == p.Lines[hi].Lineno) {
-		return "file-read-twice"
+	if twice {
+		return "file-included-twice"
 	}
 	return "other"
 }
